@@ -58,6 +58,57 @@ def norm_sig(s):
     return s
 
 
+def sig_params(sig):
+    """-> (text before the parameter list, [(name, rest)], text after) of a normalised signature, or None"""
+    i = sig.find("(", sig.find("fn"))
+    if i < 0:
+        return None
+    depth, j = 0, i
+    while j < len(sig):
+        if sig[j] in "([{":
+            depth += 1
+        elif sig[j] in ")]}":
+            depth -= 1
+            if depth == 0:
+                break
+        j += 1
+    inner, parts, depth, cur = sig[i + 1:j], [], 0, ""
+    prev = ""
+    for ch in inner:
+        if ch in "([{<":
+            depth += 1
+        elif ch in ")]}" or (ch == ">" and prev != "-"):
+            depth -= 1
+        if ch == "," and depth == 0:
+            parts.append(cur); cur = ""
+        else:
+            cur += ch
+        prev = ch
+    if cur:
+        parts.append(cur)
+    ps = []
+    for x in parts:
+        m = re.match(r"^(mut)?(\w+):(.*)$", x)
+        ps.append((m.group(2), m.group(3)) if m else (None, x))
+    return sig[:i], ps, sig[j + 1:]
+
+
+def renamed_params(csig, rsig):
+    """[(contract-side name, repo-side name)] if the two signatures differ ONLY in parameter names, else None."""
+    a, b = sig_params(norm_sig(csig)), sig_params(norm_sig(rsig))
+    if not a or not b or a[0] != b[0] or a[2] != b[2] or len(a[1]) != len(b[1]):
+        return None
+    out = []
+    for (na, ta), (nb, tb) in zip(a[1], b[1]):
+        if ta != tb or (na is None) != (nb is None):
+            return None
+        if na != nb:
+            if na is None or na == "self" or nb == "self":
+                return None
+            out.append((na, nb))
+    return out or None
+
+
 def split_sig(vsig):
     """Split the Verus-side header into (signature, spec clauses)."""
     m = re.search(r"^\s*" + SPEC_KW, vsig, re.M)
@@ -286,10 +337,16 @@ def compose(template_text, unit, canary=None):
         if any(e["op"] == "sig_adds_return" for e in d["edits"]):
             csig = re.sub(r"->.*$", "", vsig.strip(), flags=re.S)
             r["log"].append("R9:return type added to carry the panic outcome")
-        if norm_sig(csig) != norm_sig(r["sig"]):
-            raise ExtractionError(
-                f"{where}: signature drift\n  repo    : {r['sig']}\n  contract: {vsig.strip()}")
         body = r["body"]
+        if norm_sig(csig) != norm_sig(r["sig"]):
+            # R1c: parameters that were only RENAMED in the working tree keep their contract-side names in the header (the contract is
+            # written over them) and are re-bound under the new names at the head of the body
+            ren = renamed_params(csig, r["sig"])
+            if ren is None:
+                raise ExtractionError(
+                    f"{where}: signature drift\n  repo    : {r['sig']}\n  contract: {vsig.strip()}")
+            body = "{ " + " ".join(f"let {new} = {old};" for old, new in ren) + " " + body[1:]
+            r["log"].append("R1c:renamed parameter(s) re-bound: " + ", ".join(f"{old} -> {new}" for old, new in ren))
         if canary == "head":
             body = "{ proof { assert(false); } /*CANARY %d.h*/ " % k + body[1:]
         start = line
